@@ -91,7 +91,7 @@ Proof.
   set (data := body ++ e1 ++ Extent.kw_endstream ++ s3 ++ Extent.kw_endobj ++ rest).
   assert (He : endstream_at data (length body) = true).
   { unfold endstream_at, data. rewrite skipn_app_exact by reflexivity.
-    destruct H1 as [->|H1]; [apply has_prefix_self|].
+    destruct H1 as [->|H1]; [cbn [app]; change (drop_space (Extent.kw_endstream ++ s3 ++ Extent.kw_endobj ++ rest)) with (Extent.kw_endstream ++ s3 ++ Extent.kw_endobj ++ rest); apply has_prefix_self|].
     rewrite drop_space_eol1 by exact H1. apply has_prefix_self. }
   assert (Hlen : (Z.leb 0 (Z.of_nat (length body)) && Z.leb (Z.of_nat (length body)) (Z.of_nat (length data)))%Z = true).
   { unfold data. rewrite app_length. lia. }
